@@ -107,7 +107,10 @@ def run(ctx: Ctx):
                 key = "UTC" if tzid == "UTC" else tzid
                 # wall times: around transitions of the provider zone (1970-2037 scanned), midpoints, random 1900-2100
                 trs = transitions(tz, secs(datetime(1970, 1, 2, tzinfo=UTC)), secs(datetime(2037, 12, 30, tzinfo=UTC)))
-                sel = trs if not ctx.quick else (trs[:2] + rnd.sample(trs, min(len(trs), 4)) if trs else [])
+                if ctx.quick:
+                    sel = (trs[:2] + rnd.sample(trs, min(len(trs), 4))) if trs else []
+                else:
+                    sel = trs if len(trs) <= 20 else trs[:4] + trs[-4:] + rnd.sample(trs[4:-4], 12)
                 walls = set()
                 for t in sel:
                     for dlt in (-1, 0, 1, -1800, 1800):
